@@ -332,3 +332,8 @@ PROP = C20()
 from srccall import with_src as _x9_with_src  # noqa: E402
 PROP = _x9_with_src(PROP, share=16, functions=["parse_email"], module=["PkgProofs.Props.Src.ParseEmail"],
                     theorems=["Src.parse_email_translated", "Src.parse_email_eq_model", "Src.orderOf_perm"])
+
+# history-insensitivity on shared objects (harness/histlaw.py): programs over Specifier / SpecifierSet / Requirement / Marker
+# objects; extra read-only calls and work on unrelated objects built from the same texts must not change any answer
+import histlaw  # noqa: E402
+PROP = histlaw.attach(PROP, every=8)
